@@ -849,6 +849,31 @@ def srcs(fn, nid, depth=0, seen=None):
     return out
 
 
+def src_loads(fn, nid, depth=0, seen=None):
+    """atomic load events (node ids) whose results flow into the expression, through local definitions (flow-insensitive, bounded)"""
+    if seen is None:
+        seen = set()
+    out = set()
+    if nid is None or nid < 0 or depth > 6 or nid in seen:
+        return out
+    seen.add(nid)
+    n = fn.nodes[nid]
+    if n["k"] == "call":
+        a = fn.atomic(nid)
+        if a and a["kind"] == "load":
+            out.add(nid)
+            return out
+    if n["k"] == "ref" and n.get("dk") == "local":
+        for d in all_defs(fn, n["name"]):
+            out |= src_loads(fn, d, depth + 1, seen)
+        return out
+    for c in fn.kids(nid):
+        out |= src_loads(fn, c, depth + 1, seen)
+    for x in n.get("inl_rets", ()):
+        out |= src_loads(fn, x, depth + 1, seen)
+    return out
+
+
 def has_src(fn, nid, *tags):
     s = srcs(fn, nid)
     return all(any(t == x or (t.endswith("*") and x.startswith(t[:-1])) for x in s) for t in tags)
